@@ -218,6 +218,9 @@ def register_visvalingam(reg):
                  loops={"1": LoopSpec(inv=["True"])}))
     reg.add(Spec(T + "removeObs", dict(self="Track", arg="int"), "int",
                  requires=["0 <= arg and arg < npts(self)"], modifies=["Track." + PTS],
+                 hints=[("one-fix-less", "result == 1 and npts(self) == old(npts(self)) - 1"),
+                        ("fixes-before-stay", "all(pts(self)[p] == old(pts(self))[p] for p in range(0, arg))"),
+                        ("fixes-after-move-down", "all(pts(self)[p] == old(pts(self))[p + 1] for p in range(arg, npts(self)))")],
                  ensures=[("one-fix-less", "result == 1 and npts(self) == old(npts(self)) - 1"),
                           ("fixes-before-stay", "all(pts(self)[p] == old(pts(self))[p] for p in range(0, arg))"),
                           ("fixes-after-move-down", "all(pts(self)[p] == old(pts(self))[p + 1] for p in range(arg, npts(self)))"),
